@@ -122,7 +122,15 @@ def strat_directed(tier):
     return st.builds(lambda s, rr: dict(s, rerun=rr), base, st.booleans())
 
 
+def strat_items(tier):
+    from hypothesis import strategies as st
+
+    base = gen.directed_scenario(gen.items_siblings_ir(), flags=FLAGS, controls=CONTROLS, max_choices=60, canceled=True)
+    return st.builds(lambda s, rr: dict(s, rerun=rr), base, st.booleans())
+
+
 PARTS = [
     Part("quiescence", run, strategy, {"quick": 2000, "thorough": 60000}, rule=RULE),
     Part("fork-join", run, strat_directed, {"quick": 1000, "thorough": 30000}, rule="directed fork-join (join all / N, late and missing arrivals) under arbitrary schedules"),
+    Part("items-siblings", run, strat_items, {"quick": 1200, "thorough": 30000}, rule="directed: concurrency-limited with-items tasks beside plain tasks that report pending / canceled / failed, with control requests"),
 ]
